@@ -196,6 +196,7 @@ type parsedLog struct {
 	events []absEvent // with "ts" still a time string under key "_ts"
 	lines  int
 	ok     bool // every non-blank line parsed
+	torn   bool // the file ends in a fragment without newline
 }
 
 // abstractText maps concretised text back to the token the specification uses
@@ -215,7 +216,8 @@ func abstractText(v string) string {
 func parseLog(raw []byte, ids *IDMap, learn bool) parsedLog {
 	var pl parsedLog
 	pl.ok = true
-	for _, line := range bytes.Split(raw, []byte("\n")) {
+	allLines := bytes.Split(raw, []byte("\n"))
+	for li, line := range allLines {
 		t := bytes.TrimSpace(line)
 		if len(t) == 0 {
 			continue
@@ -223,6 +225,11 @@ func parseLog(raw []byte, ids *IDMap, learn bool) parsedLog {
 		pl.lines++
 		var ev rawEvent
 		if err := json.Unmarshal(t, &ev); err != nil {
+			if li == len(allLines)-1 && !bytes.HasSuffix(raw, []byte("\n")) {
+				// a torn tail (fragment without newline) is not an event
+				pl.torn = true
+				continue
+			}
 			pl.ok = false
 			pl.events = append(pl.events, absEvent{"type": "<garbage>", "_ts": ""})
 			continue
